@@ -568,6 +568,16 @@ func parseEMLAttachmentEmbed(contentDisposition []string, multiPart *multipart.P
 			filename = name
 		}
 	}
+	// parseMultiPartHeader splits at every semicolon and equals sign, also inside a quoted
+	// string. If the header is well-formed, prefer the properly parsed and decoded parameter
+	if _, params, err := mime.ParseMediaType(contentDisposition[0]); err == nil {
+		if name, ok := params["filename"]; ok && name != "" {
+			filename = name
+			if decoded, derr := (&mime.WordDecoder{}).DecodeHeader(name); derr == nil {
+				filename = decoded
+			}
+		}
+	}
 
 	var dataReader io.Reader
 	dataReader = multiPart
